@@ -265,7 +265,7 @@ Theorem C19_xslices_simple_compact_filter : ltac:(let t := type of (conj C19_all
 Proof. exact (conj C19_all_spec (conj C19_any_spec (conj C19_index_func_spec (conj C19_index_spec (conj C19_last_index_func_spec (conj C19_last_index_spec (conj C19_count_func_spec (conj C19_count_spec (conj C19_fill_spec (conj C19_clear_spec (conj C19_clone_spec (conj C19_equal_spec (conj C19_equal_func_spec (conj C19_join_spec (conj C19_map_spec (conj C19_reduce_spec (conj C19_repeat_spec (conj C19_group_spec (conj C19_compact_in_place_func_spec (conj C19_compact_func_spec (conj C19_compact_in_place_spec (conj C19_compact_spec (conj C19_compact_of_eqb_props (conj C19_filter_in_place_spec C19_filter_spec)))))))))))))))))))))))). Qed.
 Print Assumptions C19_xslices_simple_compact_filter.
 
-(* ================================================================== xsort: comparators, SliceIsSorted, Search, Merge, MergeSlices, MinK (any strict weak order, ties included) *)
+(* ================================================================== xsort: comparators, SliceIsSorted, SliceStable, Slice, Search, Merge, MergeSlices, MinK (any strict weak order, ties included) *)
 Lemma C19_greater_spec : forall less a b, greater less a b = less b a.
 Proof. exact ProofsSort.greater_spec. Qed.
 
@@ -300,6 +300,46 @@ Lemma C19_slice_is_sorted_spec : forall less x, strict_weak less ->
     (slice_is_sorted less x = true <-> nondecreasing less x).
 Proof. exact ProofsSort.slice_is_sorted_spec. Qed.
 
+(* SliceStable / Slice (wrappers over sort.SliceStable / sort.Slice).  [slice_stable] is the model
+   of SliceStable; for EVERY strict weak order - ties included - its result is a permutation of
+   the input, no later item is less than an earlier one, and the items of every class of
+   equivalent items ([equal_ less p]) are in the order they had in the input.  These three
+   facts determine the result: C19_slice_stable_unique says that ANY list with the last two
+   properties is the model's output (and therefore a permutation of the input), so nothing
+   about the sorting algorithm is left open.  Slice is not stable: [slice_allowed less x out]
+   (out has the items of slice_stable less x and is equivalent to it position by position) holds
+   exactly of the sorted permutations of x. *)
+Lemma C19_slice_stable_perm : forall less x, Permutation (slice_stable less x) x.
+Proof. exact ProofsSort.slice_stable_perm. Qed.
+
+Lemma C19_slice_stable_sorted : forall less x, strict_weak less ->
+    nondecreasing less (slice_stable less x).
+Proof. exact ProofsSort.slice_stable_sorted. Qed.
+
+Lemma C19_slice_stable_stable : forall less x, strict_weak less ->
+    forall p, filter (equal_ less p) (slice_stable less x) = filter (equal_ less p) x.
+Proof. exact ProofsSort.slice_stable_stable. Qed.
+
+Lemma C19_slice_stable_unique : forall less x out, strict_weak less ->
+    nondecreasing less out ->
+    (forall p, filter (equal_ less p) out = filter (equal_ less p) x) ->
+    out = slice_stable less x.
+Proof. exact ProofsSort.slice_stable_unique. Qed.
+
+Lemma C19_slice_stable_unique_perm : forall less x out, strict_weak less ->
+    nondecreasing less out ->
+    (forall p, filter (equal_ less p) out = filter (equal_ less p) x) ->
+    Permutation out x.
+Proof. exact ProofsSort.stable_rearrangement_is_permutation. Qed.
+
+Lemma C19_slice_spec : forall less x out, strict_weak less ->
+    (slice_allowed less x out = true <-> (Permutation out x /\ nondecreasing less out)).
+Proof. exact ProofsSort.slice_spec. Qed.
+
+Lemma C19_slice_stable_allowed : forall less x, strict_weak less ->
+    slice_allowed less x (slice_stable less x) = true.
+Proof. exact ProofsSort.slice_stable_allowed. Qed.
+
 Lemma C19_search_contract : forall less x item,
     let f := fun i => less item (znth x i) || negb (less (znth x i) item) in
     let r := search less x item in
@@ -333,9 +373,9 @@ Lemma C19_min_k_spec : forall less items k, strict_weak less ->
                 (forall o r, In o out -> In r rest -> less r o = false).
 Proof. exact ProofsSort.min_k_spec. Qed.
 
-(* the conjunction of the 14 statements above; the framework runs Print Assumptions on it *)
-Theorem C19_xsort : ltac:(let t := type of (conj C19_greater_spec (conj C19_less_or_equal_spec (conj C19_greater_or_equal_spec (conj C19_equal_spec_ (conj C19_reverse_less_spec (conj C19_less_compare_spec (conj C19_ordered_less_spec (conj C19_slice_is_sorted_adjacent (conj C19_slice_is_sorted_spec (conj C19_search_contract (conj C19_search_spec (conj C19_merge_spec (conj C19_merge_slices_spec C19_min_k_spec))))))))))))) in exact t).
-Proof. exact (conj C19_greater_spec (conj C19_less_or_equal_spec (conj C19_greater_or_equal_spec (conj C19_equal_spec_ (conj C19_reverse_less_spec (conj C19_less_compare_spec (conj C19_ordered_less_spec (conj C19_slice_is_sorted_adjacent (conj C19_slice_is_sorted_spec (conj C19_search_contract (conj C19_search_spec (conj C19_merge_spec (conj C19_merge_slices_spec C19_min_k_spec))))))))))))). Qed.
+(* the conjunction of the 21 statements above; the framework runs Print Assumptions on it *)
+Theorem C19_xsort : ltac:(let t := type of (conj C19_greater_spec (conj C19_less_or_equal_spec (conj C19_greater_or_equal_spec (conj C19_equal_spec_ (conj C19_reverse_less_spec (conj C19_less_compare_spec (conj C19_ordered_less_spec (conj C19_slice_is_sorted_adjacent (conj C19_slice_is_sorted_spec (conj C19_slice_stable_perm (conj C19_slice_stable_sorted (conj C19_slice_stable_stable (conj C19_slice_stable_unique (conj C19_slice_stable_unique_perm (conj C19_slice_spec (conj C19_slice_stable_allowed (conj C19_search_contract (conj C19_search_spec (conj C19_merge_spec (conj C19_merge_slices_spec C19_min_k_spec)))))))))))))))))))) in exact t).
+Proof. exact (conj C19_greater_spec (conj C19_less_or_equal_spec (conj C19_greater_or_equal_spec (conj C19_equal_spec_ (conj C19_reverse_less_spec (conj C19_less_compare_spec (conj C19_ordered_less_spec (conj C19_slice_is_sorted_adjacent (conj C19_slice_is_sorted_spec (conj C19_slice_stable_perm (conj C19_slice_stable_sorted (conj C19_slice_stable_stable (conj C19_slice_stable_unique (conj C19_slice_stable_unique_perm (conj C19_slice_spec (conj C19_slice_stable_allowed (conj C19_search_contract (conj C19_search_spec (conj C19_merge_spec (conj C19_merge_slices_spec C19_min_k_spec)))))))))))))))))))). Qed.
 Print Assumptions C19_xsort.
 
 (* ================================================================== xmaps: sets and maps by membership/lookup, for every iteration order of the inputs *)
@@ -408,7 +448,7 @@ Lemma C19_from_keys_and_values_spec : forall keys values,
         (forall k, In k keys -> exists v, mget m k = Some v)).
 Proof. exact ProofsMaps.from_keys_and_values_spec. Qed.
 
-(* the conjunction of the 14 statements above; the framework runs Print Assumptions on it *)
+(* the conjunction of the 21 statements above; the framework runs Print Assumptions on it *)
 Theorem C19_xmaps : ltac:(let t := type of (conj C19_set_from_slice_spec (conj C19_set_add_spec (conj C19_set_remove_spec (conj C19_set_contains_spec (conj C19_union_spec (conj C19_intersection_spec (conj C19_intersects_spec (conj C19_difference_spec (conj C19_union_order_independent (conj C19_intersection_order_independent (conj C19_reverse_map_spec (conj C19_reverse_single_spec (conj C19_to_index_spec C19_from_keys_and_values_spec))))))))))))) in exact t).
 Proof. exact (conj C19_set_from_slice_spec (conj C19_set_add_spec (conj C19_set_remove_spec (conj C19_set_contains_spec (conj C19_union_spec (conj C19_intersection_spec (conj C19_intersects_spec (conj C19_difference_spec (conj C19_union_order_independent (conj C19_intersection_order_independent (conj C19_reverse_map_spec (conj C19_reverse_single_spec (conj C19_to_index_spec C19_from_keys_and_values_spec))))))))))))). Qed.
 Print Assumptions C19_xmaps.
